@@ -108,14 +108,14 @@ def plan(tier: str, seed: int) -> list[dict]:
             cases.append({"k": "rand", "inp": ii, "j": j})
     crafted = ["hv-self", "hv-pair", "hv-chain", "shot-self", "shot-pair", "shot-mid-self", "shot-base-mid", "vmdk-self-parent", "vhdx-self-parent",
                "qcow2-bomb", "vmdk-bomb", "vmtar-gzbomb", "vmx-nested", "vmx-giant", "keystore-deep", "qcow2-snap-zero-table", "vmdk-desc-giant",
-               "big-unit", "big-unit", "vhdx-diff-bitmap", "vmtar-pax", "vmtar-pax", "vmtar-pax", "layered-corrupt", "layered-corrupt", "layered-corrupt", "layered-corrupt", "layered-corrupt", "layered-corrupt"]
+               "big-unit", "big-unit", "vhdx-diff-bitmap", "vmtar-pax", "vmtar-pax", "vmtar-pax", "qcow2-ext-wrap", "qcow2-ext-wrap", "layered-corrupt", "layered-corrupt", "layered-corrupt", "layered-corrupt", "layered-corrupt", "layered-corrupt"]
     crafted = [(c, j) for j, c in enumerate(crafted)]
     # every (text grammar, repeated token) combination, in both tiers
     for idx in range(len(TOKENS) * len(TARGETS)):
         cases.append({"k": "crafted", "c": "text-repeat", "r": idx, "weight": 2})
     for c, j in crafted:
         for r in range(4 if tier == "quick" else 40):
-            cases.append({"k": "crafted", "c": c, "r": r + 1000 * j if c in ("big-unit", "text-repeat", "layered-corrupt", "vmtar-pax") else r, "weight": 4})
+            cases.append({"k": "crafted", "c": c, "r": r + 1000 * j if c in ("big-unit", "text-repeat", "layered-corrupt", "vmtar-pax", "qcow2-ext-wrap") else r, "weight": 4})
     return cases
 
 
@@ -155,6 +155,7 @@ def run(case: dict, ctx) -> dict:
     in_len = len(raw) if inp.raw is not None else inp.aux["sparse"].stored_bytes()
     budget = int(min(2.5e5 + 100 * in_len + 8 * REQ, 3e7))
     ctx.steps.begin_case(budget)
+    ctx.steps.cpu_budget = 60.0
     fh = corpus.make_handle(inp, raw)
     ctx.mem.begin()
     o = call(corpus.exercise, inp.fmt, fh, inp.aux)
@@ -263,6 +264,7 @@ def _crafted(case, ctx, res):
     in_len = 1 << 16
     label = f"crafted:{c}"
     ctx.steps.begin_case(int(3e7))
+    ctx.steps.cpu_budget = 90.0  # seconds of thread CPU per crafted case, judged while the case runs (the unchanged tree needs < 15)
     if c.startswith("hv-"):
         from dissect.hypervisor.descriptor.hyperv import HyperVFile
 
@@ -316,11 +318,25 @@ def _crafted(case, ctx, res):
         from vf.writers import vhdx as wv
 
         d = Path(ctx.tmpdir())
-        loc = wv.parent_locator([("relative_path", ".\\self.avhdx"), ("parent_linkage", "{x}")])
-        sf, _, _ = wv.build(rng, block_size=1 << 20, sector_size=512, nblocks=2, states=[0, 0], tag=1, has_parent=True, locator=loc, checksums=False)
-        sf.write_to(d / "self.avhdx")
+        shape = case["r"] % 3
+        win = lambda p: str(p).replace("/", "\\")  # noqa: E731
+        if shape == 0:
+            locs = {"self.avhdx": [("relative_path", ".\\self.avhdx"), ("parent_linkage", "{x}")]}
+        elif shape == 1:
+            # every way of locating the parent (relative and absolute) leads back into the cycle
+            locs = {"self.avhdx": [("relative_path", ".\\self.avhdx"), ("absolute_win32_path", win(d / "self.avhdx")), ("parent_linkage", "{x}")]}
+        else:
+            locs = {"a.avhdx": [("relative_path", ".\\b.avhdx"), ("absolute_win32_path", win(d / "b.avhdx")), ("parent_linkage", "{x}")],
+                    "b.avhdx": [("relative_path", ".\\a.avhdx"), ("absolute_win32_path", win(d / "a.avhdx")), ("parent_linkage", "{y}")]}
+        for fn_, ents_ in locs.items():
+            loc = wv.parent_locator(ents_)
+            sf, _, _ = wv.build(rng, block_size=1 << 20, sector_size=512, nblocks=2, states=[0, 0], tag=1, has_parent=True, locator=loc, checksums=False)
+            sf.write_to(d / fn_)
+        first_ = next(iter(locs))
+        in_len = (d / first_).stat().st_size
+        label = f"crafted:vhdx-self-parent:{['self', 'self-both-paths', 'pair-both-paths'][shape]}"
         ctx.mem.begin()
-        o = call(lambda: VHDX(d / "self.avhdx").read(4096))
+        o = call(lambda: VHDX(d / first_).read(4096))
     elif c == "qcow2-bomb":
         from dissect.hypervisor.disk.qcow2 import QCow2
 
@@ -619,6 +635,22 @@ def _crafted(case, ctx, res):
             res["viol"].append({"what": "CPU time grows faster than linearly with the length of a text input", "mech": "resources.cpu",
                                 "detail": {"case": label, "cpu_seconds_20k": round(cpu_small, 3), "cpu_seconds_80k": round(cpu_big, 3)}})
         res["sets"]["text_repeat_targets"] = [target]
+    elif c == "qcow2-ext-wrap":
+        # two fields off at once: a header extension whose length wraps the 8-byte rounding to (almost) nothing, in an image
+        # whose backing-file-name offset no longer bounds the extension area
+        from dissect.hypervisor.disk.qcow2 import QCow2
+
+        view = wq.make_view(rng, size=8 * 512, cluster_bits=9, kinds="NNNNNNNN", extl2=False, tag=1)
+        img, _, meta = wq.build(rng, cluster_bits=9, size=8 * 512, views=[view], placement="seq", header_length=rng.choice([104, 112]),
+                                extensions=[wq.extension(rng.choice([0x6803F857, 0x12345678, 0xE2792ACA]), b"x" * 8)], rand_info=False)
+        raw = bytearray(img.to_bytes())
+        hl = struct.unpack_from(">I", raw, 100)[0]
+        struct.pack_into(">I", raw, hl + 4, rng.choice([0xFFFFFFF1, 0xFFFFFFF4, 0xFFFFFFF8, 0xFFFFFFF9, 0xFFFFFFFF, 0x80000000, 0xFFFFFFF0]))
+        struct.pack_into(">Q", raw, 8, rng.choice([1 << 32, (1 << 32) + 512, 1 << 40, (1 << 63) - 1, 0]))
+        struct.pack_into(">I", raw, 16, rng.choice([0, 8, 1023]))
+        in_len = len(raw)
+        ctx.mem.begin()
+        o = call(lambda: QCow2(io.BytesIO(bytes(raw)), backing_file=-1 if False else None).read(512))
     elif c == "qcow2-snap-zero-table":
         from dissect.hypervisor.disk.qcow2 import QCow2
 
